@@ -325,8 +325,14 @@ func (eng *Engine) initExterns() {
 			k(st, x.freshResult(st, "r."+name, resT))
 		}
 	}
-	for _, n := range []string{"time.Now", "time.Since", "time.Unix", "time.(Time).Add", "time.(Time).After", "time.(Time).Before", "time.(Duration).Milliseconds", "time.(Time).Sub", "time.(Time).Unix", "time.(Time).UnixNano", "time.(Duration).Seconds", "time.(Duration).String"} {
+	for _, n := range []string{"time.Now", "time.Since", "time.Unix", "time.(Time).Add", "time.(Time).After", "time.(Time).Before", "time.(Time).Sub", "time.(Time).Unix", "time.(Time).UnixNano", "time.(Duration).Seconds", "time.(Duration).String"} {
 		E[n] = fresh(timeNote)
+	}
+	E["time.(Duration).Nanoseconds"] = func(x *Exec, st *State, cc *ssa.CallCommon, fn *ssa.Function, args []Val, resT types.Type, k func(*State, Val)) {
+		k(st, args[0]) // a Duration is its nanosecond count
+	}
+	E["time.(Duration).Milliseconds"] = func(x *Exec, st *State, cc *ssa.CallCommon, fn *ssa.Function, args []Val, resT types.Type, k func(*State, Val)) {
+		k(st, tdiv(args[0].(Term), TInt(1000000)))
 	}
 	E["time.Unix"] = func(x *Exec, st *State, cc *ssa.CallCommon, fn *ssa.Function, args []Val, resT types.Type, k func(*State, Val)) {
 		tb(x, timeNote+"; time.Unix(s, n) is the uninterpreted value time.unix(s, n)")
